@@ -2,6 +2,7 @@ package c13
 
 import (
 	"fmt"
+	"math/rand/v2"
 	"syscall"
 
 	re_fuse "github.com/buildbarn/bb-remote-execution/pkg/filesystem/virtual/fuse"
@@ -70,7 +71,29 @@ func (x *feExec) status(want, got string) bool {
 	return true
 }
 
+// Optional capabilities of a front end.
+type (
+	// housekeeper runs protocol-level bookkeeping calls after an operation
+	// (FUSE: FORGET with immediate re-LOOKUP).
+	housekeeper interface{ afterOp() }
+	// targetReader reads back the target of a symbolic link.
+	targetReader interface {
+		readlink(n *vfsh.Node) (string, string)
+	}
+	// pageResumer reports the offset to resume from when a page ended
+	// before the first real entry (FUSE "." and "..").
+	pageResumer interface{ resumeOffset() uint64 }
+)
+
 func (x *feExec) bind(n *vfsh.Node, e entryInfo) {
+	defer func() {
+		if tr, ok := x.fe.(targetReader); ok && n.Kind == vfsh.KSymlink && n.Bound {
+			if st, target := tr.readlink(n); st != vfsh.OK || target != n.Target {
+				x.bad("symlink-target-differs", fmt.Sprintf("node %d: readlink %s %q, created with %q", n.ID, st, target, n.Target))
+			}
+			x.m.Sit["symlink-target-read-back"]++
+		}
+	}()
 	if !e.ok {
 		x.bad("returned-node-missing", "status OK without an entry")
 		return
@@ -206,6 +229,12 @@ func (x *feExec) do(op vfsh.Op) {
 		for _, rule := range m.Page(s, got, entries, end) {
 			x.bad(rule, fmt.Sprintf("session %d dir %d page %d cookie %d entries %v", s.ID, d.ID, s.Pages, s.Cookie, entries))
 		}
+		if pr, ok := x.fe.(pageResumer); ok && len(entries) == 0 && !end {
+			if off := pr.resumeOffset(); off != 0 {
+				s.Cookie = off
+				m.Sit["listing-page-ended-at-dot-entry"]++
+			}
+		}
 		step.Note = fmt.Sprintf("session=%d pages=%d entries=%d end=%v", s.ID, s.Pages, len(entries), end)
 	case "VirtualGetAttributes":
 		got, e := x.fe.getattr(d)
@@ -269,7 +298,7 @@ func runFrontEndCase(r *ev.Run, phase string, cfgIdx int, base vfsh.Config, i in
 	}
 	switch phase {
 	case "fuse":
-		x.fe = newFuseFrontEnd(env, x)
+		x.fe = newFuseFrontEnd(env, x, r.Rand(phaseNo, uint64(cfgIdx), uint64(i), 99))
 	default:
 		x.fe = newNFSFrontEnd(env, x, phase == "nfs41")
 	}
@@ -279,8 +308,12 @@ func runFrontEndCase(r *ev.Run, phase string, cfgIdx int, base vfsh.Config, i in
 		m.Root.Bound, m.Root.Ino = true, e.ino
 	}
 	gen := &vfsh.Gen{M: m, R: rng, P: vfsh.Profile{KernelOnly: true, NoBadTargets: true, UniqueTargets: phase == "fuse", MaxDirs: 8, MaxNames: 7}}
+	hk, _ := x.fe.(housekeeper)
 	for s := 0; s < steps && !failed; s++ {
 		x.do(gen.Next())
+		if hk != nil && !failed {
+			hk.afterOp()
+		}
 	}
 	if !failed {
 		x.finalCompare(finalNames)
@@ -314,13 +347,87 @@ func runFrontEndCase(r *ev.Run, phase string, cfgIdx int, base vfsh.Config, i in
 type fuseFrontEnd struct {
 	rfs re_fuse.RawFileSystem
 	x   *feExec
+	rng *rand.Rand
+	// lookups counts the references the "kernel" holds on every node id.
+	lookups    map[uint64]uint64
+	lastResume uint64
 }
 
-func newFuseFrontEnd(env *vfsh.Env, x *feExec) *fuseFrontEnd {
+func newFuseFrontEnd(env *vfsh.Env, x *feExec, rng *rand.Rand) *fuseFrontEnd {
 	return &fuseFrontEnd{
-		rfs: re_fuse.NewSimpleRawFileSystem(env.Root, env.FUSEAlloc.RegisterRemovalNotifier, re_fuse.AllowAuthenticator),
-		x:   x,
+		rfs:     re_fuse.NewSimpleRawFileSystem(env.Root, env.FUSEAlloc.RegisterRemovalNotifier, re_fuse.AllowAuthenticator),
+		x:       x,
+		rng:     rng,
+		lookups: map[uint64]uint64{},
 	}
+}
+
+func (f *fuseFrontEnd) resumeOffset() uint64 { return f.lastResume }
+
+// got records that the file system handed out one more reference to a node.
+func (f *fuseFrontEnd) got(s fuse.Status, out *fuse.EntryOut) {
+	if s == fuse.OK && out.NodeId != 0 {
+		f.lookups[out.NodeId]++
+	}
+}
+
+// afterOp plays the kernel dropping references: FORGET of some references of
+// a node, or of all of them followed by a fresh LOOKUP through a directory
+// that still names the node. A node nobody can name any more is gone for
+// good after a complete FORGET and is no longer used.
+func (f *fuseFrontEnd) afterOp() {
+	if f.rng.IntN(4) != 0 {
+		return
+	}
+	m := f.x.m
+	var cands []*vfsh.Node
+	for _, n := range m.Nodes {
+		if n.Bound && n != m.Root && f.lookups[n.Ino] > 0 {
+			cands = append(cands, n)
+		}
+	}
+	if len(cands) == 0 {
+		return
+	}
+	n := cands[f.rng.IntN(len(cands))]
+	cnt := f.lookups[n.Ino]
+	if cnt > 1 && f.rng.IntN(2) == 0 {
+		k := 1 + uint64(f.rng.IntN(int(cnt-1)))
+		f.rfs.Forget(n.Ino, k)
+		f.lookups[n.Ino] -= k
+		m.Sit["fuse-forget-partial"]++
+		return
+	}
+	// Find a live, addressable directory that names the node.
+	var parent *vfsh.Node
+	var name string
+	for _, d := range m.Nodes {
+		if d.IsDir() && d.Bound && !d.Deleted && d.Lazy == nil && (d == m.Root || f.lookups[d.Ino] > 0) && d != n {
+			for _, e := range d.Entries {
+				if e.Node == n {
+					parent, name = d, e.Name
+				}
+			}
+		}
+	}
+	if parent == nil {
+		return
+	}
+	// Other model nodes may share the node id (none here: unique symlink
+	// targets), so all references can be dropped.
+	f.rfs.Forget(n.Ino, cnt)
+	delete(f.lookups, n.Ino)
+	m.Sit["fuse-forget-complete-then-lookup"]++
+	st, e := f.lookup(parent, name)
+	if st != vfsh.OK || !e.ok || e.ino != n.Ino || e.kind != n.Kind {
+		f.x.bad("lookup-after-forget", fmt.Sprintf("node %d (%q in dir %d): status %s ino %d kind %v, expected ino %d kind %v", n.ID, name, parent.ID, st, e.ino, e.kind, n.Ino, n.Kind))
+	}
+}
+
+func (f *fuseFrontEnd) readlink(n *vfsh.Node) (string, string) {
+	h := f.hdr(n)
+	b, s := f.rfs.Readlink(nil, &h)
+	return fuseStatusName(s), string(b)
 }
 
 func fuseStatusName(s fuse.Status) string {
@@ -391,6 +498,7 @@ func (f *fuseFrontEnd) lookup(d *vfsh.Node, name string) (string, entryInfo) {
 	var out fuse.EntryOut
 	h := f.hdr(d)
 	s := f.rfs.Lookup(nil, &h, name, &out)
+	f.got(s, &out)
 	return fuseStatusName(s), entryOf(&out)
 }
 
@@ -407,6 +515,7 @@ func (f *fuseFrontEnd) create(d *vfsh.Node, name string, excl, trunc bool) (stri
 	if s == fuse.OK {
 		f.rfs.Release(nil, &fuse.ReleaseIn{InHeader: fuse.InHeader{NodeId: out.NodeId}, Flags: flags})
 	}
+	f.got(s, &out.EntryOut)
 	return fuseStatusName(s), entryOf(&out.EntryOut)
 }
 
@@ -426,6 +535,7 @@ func (f *fuseFrontEnd) openExisting(d *vfsh.Node, name string, n *vfsh.Node, tru
 func (f *fuseFrontEnd) mkdir(d *vfsh.Node, name string) (string, entryInfo) {
 	var out fuse.EntryOut
 	s := f.rfs.Mkdir(nil, &fuse.MkdirIn{InHeader: f.hdr(d), Mode: 0o755}, name, &out)
+	f.got(s, &out)
 	return fuseStatusName(s), entryOf(&out)
 }
 
@@ -434,16 +544,19 @@ func (f *fuseFrontEnd) mknod(d *vfsh.Node, name string, k vfsh.Kind, target stri
 	if k == vfsh.KSymlink {
 		h := f.hdr(d)
 		s := f.rfs.Symlink(nil, &h, target, name, &out)
+		f.got(s, &out)
 		return fuseStatusName(s), entryOf(&out)
 	}
 	mode := map[vfsh.Kind]uint32{vfsh.KFIFO: syscall.S_IFIFO, vfsh.KSocket: syscall.S_IFSOCK, vfsh.KBlock: syscall.S_IFBLK, vfsh.KFile: syscall.S_IFREG}[k]
 	s := f.rfs.Mknod(nil, &fuse.MknodIn{InHeader: f.hdr(d), Mode: mode | 0o644}, name, &out)
+	f.got(s, &out)
 	return fuseStatusName(s), entryOf(&out)
 }
 
 func (f *fuseFrontEnd) link(d *vfsh.Node, name string, leaf *vfsh.Node) (string, entryInfo) {
 	var out fuse.EntryOut
 	s := f.rfs.Link(nil, &fuse.LinkIn{InHeader: f.hdr(d), Oldnodeid: f.id(leaf)}, name, &out)
+	f.got(s, &out)
 	return fuseStatusName(s), entryOf(&out)
 }
 
@@ -466,17 +579,30 @@ func (f *fuseFrontEnd) remove(d *vfsh.Node, name string, rmDir, rmLeaf bool) (st
 }
 
 type fuseDirList struct {
-	limit   int
-	entries []vfsh.Reported
-	refused bool
-	plus    []*fuse.EntryOut
+	limit     int
+	countDots bool // "." and ".." use up room of the page as well
+	dots      int
+	lastDot   uint64
+	entries   []vfsh.Reported
+	refused   bool
+	plus      []*fuse.EntryOut
 }
 
 func (l *fuseDirList) add(e fuse.DirEntry) bool {
 	if e.Name == "." || e.Name == ".." {
+		if l.countDots && l.dots >= l.limit {
+			l.refused = true
+			return false
+		}
+		l.dots++
+		l.lastDot = e.Off
 		return true
 	}
-	if len(l.entries) >= l.limit {
+	used := len(l.entries)
+	if l.countDots {
+		used += l.dots
+	}
+	if used >= l.limit {
 		l.refused = true
 		return false
 	}
@@ -498,8 +624,17 @@ func (l *fuseDirList) AddDirLookupEntry(e fuse.DirEntry) *fuse.EntryOut {
 }
 
 func (f *fuseFrontEnd) readdir(d *vfsh.Node, cookie uint64, limit int, plus bool) (string, []vfsh.Reported, bool) {
-	l := &fuseDirList{limit: limit}
+	l := &fuseDirList{limit: limit, countDots: f.rng.IntN(2) == 0}
 	in := &fuse.ReadIn{InHeader: f.hdr(d), Offset: cookie}
+	defer func() {
+		f.lastResume = 0
+		if len(l.entries) == 0 && l.dots > 0 {
+			f.lastResume = l.lastDot
+		}
+		for _, out := range l.plus {
+			f.got(fuse.OK, out)
+		}
+	}()
 	var s fuse.Status
 	if plus {
 		s = f.rfs.ReadDirPlus(nil, in, l)
@@ -517,6 +652,24 @@ func (f *fuseFrontEnd) readdir(d *vfsh.Node, cookie uint64, limit int, plus bool
 func (f *fuseFrontEnd) getattr(n *vfsh.Node) (string, entryInfo) {
 	var out fuse.AttrOut
 	s := f.rfs.GetAttr(nil, &fuse.GetAttrIn{InHeader: f.hdr(n)}, &out)
+	if s == fuse.OK && n.IsDir() {
+		// chmod/chown/truncate of a directory: accepted, refused, invalid.
+		for _, c := range []struct {
+			valid uint32
+			want  string
+		}{{fuse.FATTR_MODE, vfsh.OK}, {fuse.FATTR_UID, vfsh.EPERM}, {fuse.FATTR_GID, vfsh.EPERM}, {fuse.FATTR_SIZE, vfsh.EINVAL}} {
+			if f.rng.IntN(3) != 0 {
+				continue
+			}
+			in := &fuse.SetAttrIn{SetAttrInCommon: fuse.SetAttrInCommon{InHeader: f.hdr(n), Valid: c.valid, Mode: 0o700, Size: 1}}
+			in.Uid, in.Gid = 1, 1
+			var so fuse.AttrOut
+			if got := fuseStatusName(f.rfs.SetAttr(nil, in, &so)); got != c.want {
+				f.x.bad("status want="+c.want+" got="+got, fmt.Sprintf("SETATTR valid=%#x on directory node %d", c.valid, n.ID))
+			}
+			f.x.m.Sit["fuse-setattr-on-directory"]++
+		}
+	}
 	return fuseStatusName(s), entryInfo{ino: out.Attr.Ino, nlink: out.Attr.Nlink, kind: modeKind(out.Attr.Mode), ok: true}
 }
 
